@@ -35,7 +35,7 @@ func init() {
 		modes: func(tier string, seed int64) []modeSpec {
 			n, m := 700, 1600
 			if tier == "thorough" {
-				n, m = 20000, 60000
+				n, m = 40000, 160000
 			}
 			return []modeSpec{
 				{name: "script", n: n, perChild: n / 16, timeout: 20 * time.Minute},
